@@ -465,6 +465,7 @@ fn variants_for(kind: u8, rng: &mut Rng) -> Vec<(Fault, bool)> {
             (Fault::Fail { kind: other, sticky: true }, true),
             (Fault::Fail { kind: ErrorKind::UnexpectedEof, sticky: false }, false),
             (Fault::Fail { kind: k2, sticky: false }, false),
+            (Fault::Fail { kind: k2, sticky: true }, false),
             (Fault::EofEarly { sticky: false }, false),
             (Fault::EofEarly { sticky: true }, false),
             (Fault::EofEarly { sticky: true }, true),
@@ -784,7 +785,7 @@ pub fn run_multi(seed: u64, run: u64, tier: &str, samples: &Samples, rep: &mut R
         };
         let fault = match fr.below(6) {
             0 => Fault::Fail { kind: *fr.pick(&KINDS[..6]), sticky: false },
-            1 => Fault::Fail { kind: ErrorKind::Other, sticky: fr.chance(1, 2) },
+            1 => Fault::Fail { kind: *fr.pick(&KINDS[..6]), sticky: fr.chance(1, 2) },
             2 => Fault::EofEarly { sticky: fr.chance(1, 4) },
             3 => Fault::PartialThenFail {
                 k: fr.range(1, 16) as u32,
